@@ -117,6 +117,47 @@ theorem Flow.seq_exit {σ α ρ : Type} (o : Outcome σ ρ) (k : α → Outcome 
 theorem Flow.andThen_next {σ α ρ : Type} (a : α) (k : α → Bool) : (Flow.next a : Flow σ α ρ).andThen k = k a := rfl
 theorem Flow.andThen_exit {σ α ρ : Type} (o : Outcome σ ρ) (k : α → Bool) : (Flow.exit o : Flow σ α ρ).andThen k = true := rfl
 
+/-! ### output strings and calls "via" (phase 4) -/
+
+theorem Outcome.bindVia_normal {τ σ α β : Type} (t : τ) (r : α) (put : τ → σ) (k : τ → α → Outcome σ β) :
+    (Outcome.normal t r : Outcome τ α).bindVia put k = k t r := rfl
+theorem Outcome.bindVia_thrown {τ σ α β : Type} (e : String) (t : τ) (put : τ → σ) (k : τ → α → Outcome σ β) :
+    (Outcome.thrown e t : Outcome τ α).bindVia put k = .thrown e (put t) := rfl
+theorem Flow.callVia_normal {τ σ α β ρ : Type} (t : τ) (r : α) (put : τ → σ) (k : τ → α → Flow σ β ρ) :
+    Flow.callVia (Outcome.normal t r : Outcome τ α) put k = k t r := rfl
+theorem Flow.callVia_thrown {τ σ α β ρ : Type} (e : String) (t : τ) (put : τ → σ) (k : τ → α → Flow σ β ρ) :
+    Flow.callVia (Outcome.thrown e t : Outcome τ α) put k = .exit (.thrown e (put t)) := rfl
+theorem Outcome.okAnd_normal {τ σ α : Type} (t : τ) (r : α) (put : τ → σ) (k : σ → α → Bool) :
+    (Outcome.normal t r : Outcome τ α).okAnd put k = k (put t) r := rfl
+theorem Outcome.okAnd_thrown {τ σ α : Type} (e : String) (t : τ) (put : τ → σ) (k : σ → α → Bool) :
+    (Outcome.thrown e t : Outcome τ α).okAnd put k = true := rfl
+
+theorem ofNat_mod256 (n : Nat) : UInt8.ofNat (n % 256) = UInt8.ofNat n := by
+  apply UInt8.toNat_inj.mp
+  simp [UInt8.toNat_ofNat']
+
+/-- the byte a non-negative value is stored as -/
+theorem byteOf_nat (n : Nat) : byteOf (n : Int) = UInt8.ofNat n := by
+  unfold byteOf
+  have : ((n : Int) % 256).toNat = n % 256 := by omega
+  rw [this, ofNat_mod256]
+
+/-- `static_cast<char>(x)` stores the low byte of `x` -/
+theorem byteOf_wrapS8 (x : Int) : byteOf (wrapS 8 x) = byteOf x := by
+  unfold byteOf wrapS
+  have : ((x + (2:Int) ^ (8 - 1)) % (2:Int) ^ 8 - (2:Int) ^ (8 - 1)) % 256 = x % 256 := by
+    have e1 : (2:Int) ^ (8 - 1) = 128 := by decide
+    have e2 : (2:Int) ^ 8 = 256 := by decide
+    rw [e1, e2]; omega
+  rw [this]
+
+/-- appending `static_cast<char>(x)` where `x` is (shown to be) the natural number `n` -/
+theorem push_wrapS8_nat (out : Buf) (x : Int) (n : Nat) (h : x = (n : Int)) : push out (wrapS 8 x) = out ++ [UInt8.ofNat n] := by
+  subst h; unfold push; rw [byteOf_wrapS8, byteOf_nat]
+
+theorem push_nat (out : Buf) (x : Int) (n : Nat) (h : x = (n : Int)) : push out x = out ++ [UInt8.ofNat n] := by
+  subst h; unfold push; rw [byteOf_nat]
+
 /-- closes `Outcome.normal s r = Outcome.normal s' r'` (after the translated definition was unfolded) when the
     components are equal up to linear arithmetic — so that a tie does not depend on the order of operands in the
     source expression -/
